@@ -322,9 +322,9 @@ fn record_match(opts: &Opts, api: &chess_api::ChessApiRef, roots: &Value) -> i32
         loop {
             let turn = a.board().turn();
             let id = if turn == Color::White { 0 } else { 1 };
-            let proposal = if ply < opening {
-                let legals = legal_codes(&a.board());
-                legals.choose(&mut rng).map(|&c| decode(c))
+            let opening_choice = if ply < opening { legal_codes(&a.board()).choose(&mut rng).map(|&c| decode(c)) } else { None };
+            let proposal = if opening_choice.is_some() {
+                opening_choice
             } else {
                 // mostly a limit that lets a few passes finish; now and then one that may expire at once
                 let k = if rng.gen_range(0..200) == 0 { rng.gen_range(0..40) } else { rng.gen_range(kmax / 10..kmax) };
